@@ -117,3 +117,44 @@ Proof.
   cbv zeta. split; [exact Hwt|]. split; [exact Hc|]. exists bs. split; [exact He|exact Hn].
 Qed.
 Print Assumptions C01_roundtrip_exact_needs_canonical.
+
+(* ---------- the two hand-written codecs (objects/types.go): msg_container and gzip_packed ----------
+   proofs in TL/ContainerRT.v.  Bodies of container messages are opaque byte strings at this level. *)
+From MTV Require Import TL.ContainerRT TL.NPPost.
+
+Theorem C01_container_roundtrip : forall U inflate, lookup_reg U crc_container = Some RContainer ->
+  forall items bs, forallb item_ok items = true -> N.of_nat (length items) < two32 / 2 ->
+  enc U (VContainer items) = Ok bs ->
+  forall h rest, exists f0, forall f, (f0 <= f)%nat ->
+    dec U inflate f JReg (h, bs ++ rest) = DOk ([VContainer items], (h, rest)).
+Proof. exact container_roundtrip. Qed.
+Print Assumptions C01_container_roundtrip.
+
+Theorem C01_container_roundtrip_unknown : forall U inflate, lookup_reg U crc_container = Some RContainer ->
+  forall items bs, forallb item_ok items = true -> N.of_nat (length items) < two32 / 2 ->
+  enc U (VContainer items) = Ok bs ->
+  exists f0, forall f, (f0 <= f)%nat -> decode_unknown U inflate f [] bs = DOk (VContainer items).
+Proof. exact container_roundtrip_unknown. Qed.
+Print Assumptions C01_container_roundtrip_unknown.
+
+(* the hypotheses are met by a container with an empty body, a 64-bit id with the top bit set and seq_no 2^32-1 *)
+Example C01_container_example :
+  let items := [(18446744073709551613, 4294967295, []); (4, 1, [1; 2; 3; 4])] in
+  forallb item_ok items = true /\ N.of_nat (length items) < two32 / 2 /\
+  exists bs, enc NPPost.exU (VContainer items) = Ok bs /\
+             decode_unknown NPPost.exU (fun _ => None) 5 [] bs = DOk (VContainer items).
+Proof. cbv zeta. split; [reflexivity|]. split; [reflexivity|]. eexists. split; [reflexivity|]. vm_compute. reflexivity. Qed.
+Print Assumptions C01_container_example.
+
+(* gzip_packed: decode-only in the library; what it decodes to is the normal form of the packed object *)
+Theorem C01_gzip_decodes : forall U inflate, pseudo_ok U = true -> lookup_reg U crc_gzip = Some RGzip ->
+  forall v raw payload packed, wt U (TIface 0) v = true -> enc U v = Ok raw ->
+  inflate payload = Some raw -> put_bytes payload = Some packed ->
+  forall h rest, exists f0, forall f, (f0 <= f)%nat ->
+    dec U inflate f JReg (h, le32 crc_gzip ++ packed ++ rest) = DOk ([VGzip (norm U v)], (h, rest)).
+Proof. intros U inflate HU Hgz. exact (gzip_decodes U inflate HU Hgz). Qed.
+Print Assumptions C01_gzip_decodes.
+
+Theorem C01_gzip_is_decode_only : forall U v, enc U (VGzip v) = Panic.
+Proof. exact enc_gzip_panics. Qed.
+Print Assumptions C01_gzip_is_decode_only.
